@@ -11,6 +11,7 @@ CONSTANTS
   FixNonRequest = TRUE
   FixLongWs = TRUE
   FarChoices = {FALSE}
+  FixNullRequired = TRUE
   HasValidator = TRUE
   NilPointerSkipsValidation = TRUE
 INIT TableInit
